@@ -289,7 +289,16 @@ def validate_traces(traces, module, props, workers=8, timeout=900, extra_constan
             out_all["expected_states"] += exp
             out_all["states"] += r.get("distinct", 0)
             if r["timed_out"] or not r["finished"] or r.get("distinct") != exp:
-                out_all["errors"].append({"batch": b0, "timed_out": r["timed_out"], "distinct": r.get("distinct"), "expected": exp, "tail": r["out"][-3000:]})
+                # keep the whole TLC output of a failed run where it can be read afterwards
+                logp = os.path.join(ROOT, "replays", "tlc_failure_%s_%d_%d.log" % (module, os.getpid(), b0))
+                try:
+                    os.makedirs(os.path.dirname(logp), exist_ok=True)
+                    with open(logp, "w") as lf:
+                        lf.write(r["out"])
+                except OSError:
+                    logp = ""
+                msgs = [l for l in r["out"].splitlines() if re.search(r"Error|rror:|xception|was not in the domain|attempted|Killed|OutOfMemory", l)][:12]
+                out_all["errors"].append({"batch": b0, "timed_out": r["timed_out"], "distinct": r.get("distinct"), "expected": exp, "rc": r.get("rc"), "messages": msgs, "log": logp, "tail": r["out"][-1500:]})
             for v in printed_tuples(r["out"]):
                 if v[0] == "VIOL":
                     out_all["viol"].append({"prop": v[1], "name": v[2], "trace": v[3], "step": v[4], "detail": v[5] if len(v) > 5 else None})
